@@ -186,6 +186,10 @@ def check_interpolation(res, c, points, f, where, tol_rel=1e-11, comps=None):
     if not points:
         return
     pts = sorted(points)
+    if len(pts) >= 2 and (hash(pts[0]) + len(pts)) % 2 == 0:
+        # an evaluation list may contain a point several times (deterministic choice: no generator state is consumed)
+        pts = pts + [pts[(7 * i) % len(pts)] for i in range(1 + len(pts) % 5)]
+        res.count("evaluation_list_with_repeated_points")
     vals = np.asarray(c(pts))
     exp = np.array([f.eval(p) for p in pts])
     if comps is not None:
